@@ -6,6 +6,13 @@
   harness probes libc for the UTC offsets and passes them as `Tz`: a list of `(from, offset)`
   pairs, ascending; the first offset also applies before its `from`.
 
+  The model has two stages.  The *reader* turns the strings of a `ranges` dictionary into tokens
+  (`SpecTok`, `DayDefTok`, `EntryTok`); it transcribes the string handling of ParseTimeSpec /
+  ParseTimeRange / ProcessTimeRaw and does not depend on the reference day.  The *core* works on
+  tokens and transcribes everything that depends on the reference day and the time zone; the
+  theorems (`scriptFunc_spec` …) are about the core, the reader is tied to the code by the
+  correspondence runs only.
+
   A `struct tm` whose fields need not be normalised is represented by its naive local second count
   `day * 86400 + hour * 3600 + min * 60 + sec`, where `day` comes from `daysFromCivil` with
   out-of-range month/day values carried over — that is what `mktime` does with the fields before it
@@ -105,24 +112,40 @@ def findNthWeekday (wday n : Int) (year mon : Int) : Option Int :=
   else if n < 0 then findNthLoop wday (-1) (7 * (-n).toNat) (-n).toNat (daysFromCivil year (mon + 2) 0)  -- :68-76
   else none
 
-/-- Result of `ParseTimeSpec`: the day whose 00:00 is `begin` and the day whose 00:00 is `end`
-    (`end` is 24:00 of the last day, i.e. the following day). -/
-structure DaySpan where
-  b : Int
-  e : Int
+/-! ## Tokens -/
+
+/-- One day specification as `ParseTimeSpec` distinguishes them (months 0-based like `tm_mon`). -/
+inductive SpecTok
+  | date (y m d : Int)                          -- "YYYY-MM-DD" (1 ≤ m ≤ 12, 1 ≤ d ≤ 31 checked by the reader)
+  | monthDay (mon : Option Int) (mday : Int)    -- "day N" (mon = none: month of the reference) / "<month> N"
+  | weekday (w : Int)                           -- "monday"
+  | nthWeekday (w n : Int) (mon : Option Int)   -- "monday 2" / "monday -1 may"
   deriving Repr, DecidableEq
 
-/-- `ParseTimeSpec(timespec, begin, end, reference)` (legacytimeperiod.cpp:173-324) with the
-    reference at local midnight of day `D`.  `none` = the function throws. -/
-def parseTimeSpec (spec : String) (D : Int) : Option DaySpan :=
-  let (ry, rm, _rd) := civilFromDays D
+/-- A day definition: one day, or a range of days, with a stride (`ParseTimeRange`). -/
+structure DayDefTok where
+  first : SpecTok
+  second : Option SpecTok
+  stride : Int
+  deriving Repr, DecidableEq
+
+/-- One entry of the `ranges` dictionary.  `none` = reading that string throws (the exception is
+    raised only when the day loop gets to it, so it is kept in the token). -/
+structure EntryTok where
+  dayDef : Option DayDefTok
+  ranges : Option (List (Int × Int))            -- raw (begin, end) seconds of the day, before the wrap test
+  deriving Repr
+
+/-! ## Reader (strings → tokens) -/
+
+/-- String part of `ParseTimeSpec` (legacytimeperiod.cpp:173-324).  `none` = throws. -/
+def readSpecTok (spec : String) : Option SpecTok :=
   let cs := spec.toList
   -- :176-209  YYYY-MM-DD
   if cs.length = 10 ∧ cs[4]? = some '-' ∧ cs[7]? = some '-' then
     match toLong? (String.ofList (cs.take 4)), toLong? (String.ofList ((cs.drop 5).take 2)), toLong? (String.ofList ((cs.drop 8).take 2)) with
     | some y, some m, some d =>
-      if m < 1 ∨ m > 12 ∨ d < 1 ∨ d > 31 then none
-      else let day := daysFromCivil y m d; some ⟨day, day + 1⟩
+      if m < 1 ∨ m > 12 ∨ d < 1 ∨ d > 31 then none else some (.date y m d)      -- :181-184
     | _, _, _ => none
   else
     let tokens := spec.splitOn " "
@@ -130,45 +153,28 @@ def parseTimeSpec (spec : String) (D : Int) : Option DaySpan :=
     let monTok := monthFromString (tok 0)
     -- :215-271  "day N" / "<month> N"
     if tokens.length > 1 ∧ (tok 0 = "day" ∨ monTok.isSome) then
-      let mon := match monTok with | some m => m | none => rm - 1
       match toLong? (tok 1) with
       | none => none
-      | some mday =>
-        if mday < 0 then
-          -- :231-241,254-267  end of the month minus (|mday| - 1) days; boost::gregorian needs a valid month
-          let day := daysFromCivil ry (mon + 2) 0 - (-mday - 1)
-          some ⟨day, day + 1⟩
-        else
-          let day := daysFromCivil ry (mon + 1) mday
-          some ⟨day, day + 1⟩
+      | some mday => some (.monthDay monTok mday)
     else
       -- :275-321  weekday [n [month]]
       match weekdayFromString (tok 0) with
       | none => none                                                    -- :323
       | some wday =>
-        let mon? : Option (Option Int) :=
-          if tokens.length > 2 then (match monthFromString (tok 2) with | some m => some (some m) | none => none)
-          else some none
-        match mon? with
-        | none => none                                                  -- :282-283
-        | some monOpt =>
-          let mon := match monOpt with | some m => m | none => rm - 1
-          if tokens.length > 1 then
-            match toLong? (tok 1) with
-            | none => none
-            | some n =>
-              match findNthWeekday wday n ry mon with
-              | none => none
-              | some day => some ⟨day, day + 1⟩
-          else
-            -- :299  tm_mday += (7 - tm_wday + wday) % 7; the month override does not apply here (size = 1)
-            let day := D + (7 - weekdayOf D + wday) % 7
-            some ⟨day, day + 1⟩
+        if tokens.length > 2 then
+          match monthFromString (tok 2), toLong? (tok 1) with            -- :280-291
+          | some m, some n => some (.nthWeekday wday n (some m))
+          | _, _ => none
+        else if tokens.length > 1 then
+          match toLong? (tok 1) with
+          | some n => some (.nthWeekday wday n none)
+          | none => none
+        else some (.weekday wday)
 
 def firstWord (s : String) : String := (s.splitOn " ").headD ""
 
-/-- `ParseTimeRange` (legacytimeperiod.cpp:341-391): (begin day, end day (exclusive), stride). -/
-def parseTimeRange (timerange : String) (D : Int) : Option (Int × Int × Int) :=
+/-- String part of `ParseTimeRange` (legacytimeperiod.cpp:341-391). -/
+def readDayDef (timerange : String) : Option DayDefTok :=
   -- :346-356 stride
   let parts := timerange.splitOn "/"
   let defn := parts.headD ""
@@ -184,30 +190,13 @@ def parseTimeRange (timerange : String) (D : Int) : Option (Int × Int × Int) :
       let second0 := (" " ++ "- ".intercalate (pieces.drop 1)).trimAscii.toString
       let fword := firstWord second0
       let second := if (toLong? fword).isSome then firstWord first ++ " " ++ second0 else second0   -- :371-385
-      match parseTimeSpec first D, parseTimeSpec second D with
-      | some s1, some s2 => some (s1.b, s2.e, stride)
+      match readSpecTok first, readSpecTok second with
+      | some s1, some s2 => some { first := s1, second := some s2, stride := stride }
       | _, _ => none
     else
-      match parseTimeSpec defn D with
-      | some s => some (s.b, s.e, stride)
+      match readSpecTok defn with
+      | some s => some { first := s, second := none, stride := stride }
       | none => none
-
-/-- `IsInTimeRange` (legacytimeperiod.cpp:27-43): compares *instants* and derives the day number of
-    the stride from a difference in seconds. -/
-def isInTimeRange (tz : Tz) (bD eD stride D : Int) : Bool :=
-  let tsbegin := mkDay tz bD 0
-  let tsend := mkDay tz eD 0
-  let tsref := mkDay tz D 0
-  if tsref < tsbegin ∨ tsref ≥ tsend then false
-  else
-    let daynumber := (tsref - tsbegin) / 86400
-    if stride > 1 ∧ daynumber % stride > 0 then false else true
-
-/-- `IsInDayDefinition` (legacytimeperiod.cpp:393-405). -/
-def isInDayDefinition (tz : Tz) (daydef : String) (D : Int) : Option Bool :=
-  match parseTimeRange daydef D with
-  | none => none
-  | some (b, e, stride) => some (isInTimeRange tz b e stride D)
 
 /-- `ProcessTimeRaw` (legacytimeperiod.cpp:407-427): seconds of the day (fields not normalised). -/
 def processTimeRaw (s : String) : Option Int :=
@@ -216,52 +205,120 @@ def processTimeRaw (s : String) : Option Int :=
   | [h, m, sec] => do let sec ← toLong? sec; let h ← toLong? h; let m ← toLong? m; pure (h * 3600 + m * 60 + sec)
   | _ => none
 
-/-- `ProcessTimeRangeRaw` + `ProcessTimeRange` (legacytimeperiod.cpp:429-454). -/
-def processTimeRange (tz : Tz) (range : String) (D : Int) : Option Seg :=
+/-- String part of `ProcessTimeRangeRaw` (legacytimeperiod.cpp:429-437). -/
+def readTimeRange (range : String) : Option (Int × Int) :=
   match range.splitOn "-" with
   | [a, b] =>
     match processTimeRaw a, processTimeRaw b with
-    | some bs, some es =>
-      let es' := if bs ≥ es then es + 24 * 3600 else es                     -- :439-441
-      some (mkDay tz D bs, mkDay tz D es')
+    | some bs, some es => some (bs, es)
     | _, _ => none
   | _ => none
 
-/-- `ProcessTimeRanges` (legacytimeperiod.cpp:463-475): empty results are skipped. -/
-def processTimeRanges (tz : Tz) (timeranges : String) (D : Int) : Option (List Seg) :=
-  (timeranges.splitOn ",").foldl (fun acc r =>
-    match acc, processTimeRange tz r D with
-    | some l, some s => if s.1 ≥ s.2 then some l else some (l ++ [s])
+/-- String part of `ProcessTimeRanges` (legacytimeperiod.cpp:465). -/
+def readTimeRanges (timeranges : String) : Option (List (Int × Int)) :=
+  (timeranges.splitOn ",").mapM readTimeRange
+
+def readEntry (kv : String × String) : EntryTok :=
+  { dayDef := readDayDef kv.1, ranges := readTimeRanges kv.2 }
+
+/-! ## Core (tokens, reference day, time zone) -/
+
+/-- The day `ParseTimeSpec` computes for a token with the reference at local midnight of day `D`
+    (`begin` is 00:00 of that day, `end` 24:00 of it).  `none` only for "n-th weekday" with n = 0. -/
+def resolveDay (s : SpecTok) (D : Int) : Option Int :=
+  let ry := (civilFromDays D).1
+  let rm := (civilFromDays D).2.1
+  match s with
+  | .date y m d => some (daysFromCivil y m d)                            -- :186-206
+  | .monthDay mon mday =>                                                 -- :215-271
+    let mon := match mon with | some m => m | none => rm - 1
+    if mday < 0 then
+      -- :231-241,254-267  end of the month minus (|mday| - 1) days
+      some (daysFromCivil ry (mon + 2) 0 - (-mday - 1))
+    else some (daysFromCivil ry (mon + 1) mday)
+  | .weekday w => some (D + (7 - weekdayOf D + w) % 7)                    -- :299,312
+  | .nthWeekday w n mon =>                                                -- :293-297
+    let mon := match mon with | some m => m | none => rm - 1
+    findNthWeekday w n ry mon
+
+/-- `ParseTimeRange` on tokens: (begin day, end day (exclusive), stride). -/
+def dayDefSpan (df : DayDefTok) (D : Int) : Option (Int × Int × Int) :=
+  match df.second with
+  | none =>
+    match resolveDay df.first D with
+    | some d => some (d, d + 1, df.stride)
+    | none => none
+  | some s2 =>
+    match resolveDay df.first D, resolveDay s2 D with
+    | some d1, some d2 => some (d1, d2 + 1, df.stride)
+    | _, _ => none
+
+/-- `IsInTimeRange` (legacytimeperiod.cpp:27-46): compares *instants*; the day number of the stride
+    is the distance of the two local midnights rounded to whole days (since commit 3f58d09; before,
+    it was truncated, which was off by one after a 23-hour day — F-C08b). -/
+def isInTimeRange (tz : Tz) (bD eD stride D : Int) : Bool :=
+  let tsbegin := mkDay tz bD 0
+  let tsend := mkDay tz eD 0
+  let tsref := mkDay tz D 0
+  if tsref < tsbegin ∨ tsref ≥ tsend then false
+  else
+    let daynumber := (tsref - tsbegin + 43200) / 86400
+    if stride > 1 ∧ daynumber % stride > 0 then false else true
+
+/-- `IsInDayDefinition` (legacytimeperiod.cpp:396-408). -/
+def dayMatchesTok (tz : Tz) (df : DayDefTok) (D : Int) : Option Bool :=
+  match dayDefSpan df D with
+  | none => none
+  | some (b, e, stride) => some (isInTimeRange tz b e stride D)
+
+/-- `ProcessTimeRangeRaw` wrap test + `ProcessTimeRange` (legacytimeperiod.cpp:439-457). -/
+def rangeSeg (tz : Tz) (r : Int × Int) (D : Int) : Seg :=
+  let es' := if r.1 ≥ r.2 then r.2 + 24 * 3600 else r.2                  -- :442-444
+  (mkDay tz D r.1, mkDay tz D es')
+
+/-- `ProcessTimeRanges` (legacytimeperiod.cpp:466-478): empty results are skipped. -/
+def rangesSegs (tz : Tz) (rs : List (Int × Int)) (D : Int) : List Seg :=
+  rs.filterMap fun r => let s := rangeSeg tz r D; if s.1 ≥ s.2 then none else some s
+
+/-- One dictionary entry on one reference day (body of the inner loop, legacytimeperiod.cpp:627-642). -/
+def entrySegs (tz : Tz) (en : EntryTok) (D : Int) : Option (List Seg) :=
+  match en.dayDef with
+  | none => none
+  | some df =>
+    match dayMatchesTok tz df D with
+    | none => none
+    | some false => some []
+    | some true =>
+      match en.ranges with
+      | none => none
+      | some rs => some (rangesSegs tz rs D)
+
+def dayEntriesTok (tz : Tz) (entries : List EntryTok) (D : Int) : Option (List Seg) :=
+  entries.foldl (fun acc en =>
+    match acc, entrySegs tz en D with
+    | some l, some s => some (l ++ s)
     | _, _ => none) (some [])
 
-/-- Body of the day loop (legacytimeperiod.cpp:624-639) for one reference day. -/
-def dayEntries (tz : Tz) (ranges : List (String × String)) (D : Int) : Option (List Seg) :=
-  ranges.foldl (fun acc kv =>
-    match acc with
-    | none => none
-    | some l =>
-      match isInDayDefinition tz kv.1 D with
-      | none => none
-      | some false => some l
-      | some true =>
-        match processTimeRanges tz kv.2 D with
-        | none => none
-        | some s => some (l ++ s)) (some [])
-
-/-- The day loop (legacytimeperiod.cpp:616): `for (reference = midnight of begin's day;
+/-- The day loop (legacytimeperiod.cpp:619): `for (reference = midnight of begin's day;
     mktime(reference) <= end; next day)`. -/
-def dayLoop (tz : Tz) (ranges : List (String × String)) (e : Int) : Nat → Int → Option (List Seg)
+def dayLoopTok (tz : Tz) (entries : List EntryTok) (e : Int) : Nat → Int → Option (List Seg)
   | 0, _ => some []
   | fuel + 1, D =>
     if mkDay tz D 0 ≤ e then
-      match dayEntries tz ranges D, dayLoop tz ranges e fuel (D + 1) with
+      match dayEntriesTok tz entries D, dayLoopTok tz entries e fuel (D + 1) with
       | some a, some b => some (a ++ b)
       | _, _ => none
     else some []
 
-/-- `LegacyTimePeriod::ScriptFunc(tp, begin, end)` (legacytimeperiod.cpp:585-647); `none` = throws. -/
+/-- Upper bound on the number of iterations of the day loop (every local day lasts ≥ 23 h). -/
+def loopFuel (b e : Int) : Nat := ((e - b) / 82800 + 3).toNat
+
+/-- `LegacyTimePeriod::ScriptFunc` on tokens. -/
+def scriptFuncTok (tz : Tz) (entries : List EntryTok) (b e : Int) : Option (List Seg) :=
+  dayLoopTok tz entries e (loopFuel b e) (localDay tz b)
+
+/-- `LegacyTimePeriod::ScriptFunc(tp, begin, end)` (legacytimeperiod.cpp:588-650); `none` = throws. -/
 def scriptFunc (tz : Tz) (ranges : List (String × String)) (b e : Int) : Option (List Seg) :=
-  let D0 := localDay tz b
-  dayLoop tz ranges e ((e - b) / 82800 + 3).toNat D0
+  scriptFuncTok tz (ranges.map readEntry) b e
 
 end Icinga.C08
